@@ -9,24 +9,30 @@ pub fn to_idl(v: &Value, env: &TypeEnv, t: &Type) -> IDLValue {
     let k = v["k"].as_str().unwrap();
     match (k, t.as_ref()) {
         ("null", TypeInner::Opt(_)) => IDLValue::None,
+        ("bool", TypeInner::Null) => IDLValue::Bool(true),
         ("null", _) => IDLValue::Null,
         ("reserved", _) => IDLValue::Reserved,
         ("bool", _) => IDLValue::Bool(v["b"].as_u64().unwrap() == 1),
-        ("num", TypeInner::Nat) => IDLValue::Nat(candid::Nat(jnum(v).to_biguint().unwrap())),
-        ("num", _) => IDLValue::Int(candid::Int(jnum(v))),
+        ("num", TypeInner::Int) => IDLValue::Int(candid::Int(jnum(v))),
+        ("num", _) => { let n = jnum(v); if n.sign() == num_bigint::Sign::Minus { IDLValue::Int(candid::Int(n)) } else { IDLValue::Nat(candid::Nat(n.to_biguint().unwrap())) } }
         ("text", _) => IDLValue::Text(jstr(&v["cps"])),
         ("principal", _) => IDLValue::Principal(candid::Principal::from_slice(&jbytes(&v["b"]))),
         ("service", _) => IDLValue::Service(candid::Principal::from_slice(&jbytes(&v["b"]))),
         ("func", _) => IDLValue::Func(candid::Principal::from_slice(&jbytes(&v["b"])), String::from_utf8(jbytes(&v["m"])).unwrap()),
         ("fix", ty) => {
             let b = jbytes(&v["bytes"]);
-            match ty {
-                TypeInner::Nat8 => IDLValue::Nat8(b[0]), TypeInner::Int8 => IDLValue::Int8(b[0] as i8),
-                TypeInner::Nat16 => IDLValue::Nat16(u16::from_le_bytes(b.try_into().unwrap())), TypeInner::Int16 => IDLValue::Int16(i16::from_le_bytes(b.try_into().unwrap())),
-                TypeInner::Nat32 => IDLValue::Nat32(u32::from_le_bytes(b.try_into().unwrap())), TypeInner::Int32 => IDLValue::Int32(i32::from_le_bytes(b.try_into().unwrap())),
-                TypeInner::Nat64 => IDLValue::Nat64(u64::from_le_bytes(b.try_into().unwrap())), TypeInner::Int64 => IDLValue::Int64(i64::from_le_bytes(b.try_into().unwrap())),
-                TypeInner::Float32 => IDLValue::Float32(f32::from_le_bytes(b.try_into().unwrap())), TypeInner::Float64 => IDLValue::Float64(f64::from_le_bytes(b.try_into().unwrap())),
-                _ => match b.len() { 1 => IDLValue::Nat8(b[0]), 2 => IDLValue::Nat16(u16::from_le_bytes(b.try_into().unwrap())), 4 => IDLValue::Nat32(u32::from_le_bytes(b.try_into().unwrap())), _ => IDLValue::Nat64(u64::from_le_bytes(b.try_into().unwrap())) },
+            let w = match ty { TypeInner::Nat8 | TypeInner::Int8 => 1, TypeInner::Nat16 | TypeInner::Int16 => 2, TypeInner::Nat32 | TypeInner::Int32 | TypeInner::Float32 => 4, TypeInner::Nat64 | TypeInner::Int64 | TypeInner::Float64 => 8, _ => 0 };
+            if w == b.len() {
+                match ty {
+                    TypeInner::Nat8 => IDLValue::Nat8(b[0]), TypeInner::Int8 => IDLValue::Int8(b[0] as i8),
+                    TypeInner::Nat16 => IDLValue::Nat16(u16::from_le_bytes(b.try_into().unwrap())), TypeInner::Int16 => IDLValue::Int16(i16::from_le_bytes(b.try_into().unwrap())),
+                    TypeInner::Nat32 => IDLValue::Nat32(u32::from_le_bytes(b.try_into().unwrap())), TypeInner::Int32 => IDLValue::Int32(i32::from_le_bytes(b.try_into().unwrap())),
+                    TypeInner::Nat64 => IDLValue::Nat64(u64::from_le_bytes(b.try_into().unwrap())), TypeInner::Int64 => IDLValue::Int64(i64::from_le_bytes(b.try_into().unwrap())),
+                    TypeInner::Float32 => IDLValue::Float32(f32::from_le_bytes(b.try_into().unwrap())), _ => IDLValue::Float64(f64::from_le_bytes(b.try_into().unwrap())),
+                }
+            } else {
+                // a number of another width than the type asks for (near-miss): built by its own width
+                match b.len() { 1 => IDLValue::Nat8(b[0]), 2 => IDLValue::Nat16(u16::from_le_bytes(b.try_into().unwrap())), 4 => IDLValue::Nat32(u32::from_le_bytes(b.try_into().unwrap())), _ => IDLValue::Nat64(u64::from_le_bytes(b.try_into().unwrap())) }
             }
         }
         ("opt", TypeInner::Opt(a)) => IDLValue::Opt(Box::new(to_idl(&v["v"], env, a))),
